@@ -353,6 +353,26 @@ def _far_point(ck: Checker, prog: Program, fp):
             pts = [v.args[-1] for v in vals if any(getattr(getattr(a, "func", None), "__name__", "") in ("sign", "dot") for a in sp.preorder_traversal(v))]
             out.append((len(vals), pts))
         return out
+    # region k of the result belongs to sensor k (the callers pair regions with the indices of the retained sensors in order): the
+    # outer loop runs over the points in point order
+    outer = parent_of(lp)
+    while outer is not None and not isinstance(outer, ast.For):
+        outer = parent_of(outer)
+    if outer is None:
+        raise AnalysisError(f"{fp.qualname}: the loop over the sensors is not recognised")
+    it_txt = unparse(outer.iter)
+    pr = fp.params[0] if fp.params and fp.params[0] not in ("self", "cls") else (fp.params[1] if len(fp.params) > 1 else "vor")
+    in_point_order = it_txt in (f"enumerate({pr}.point_region)", f"range(len({pr}.point_region))", f"range(len({pr}.points))", f"enumerate({pr}.points)")
+    it_val = env_before(outer).get(outer.iter.id) if isinstance(outer.iter, ast.Name) else None
+    if not in_point_order and it_val is not None:
+        in_point_order = str(it_val) in (f"enumerate(attr_point_region({pr}))",)
+    if in_point_order:
+        ck.ok("C14.R5", fp.qualname, "regions are produced in the order of the sensors", nontrivial=False)
+    elif isinstance(outer.iter, ast.Call) and call_name(outer.iter) in ("items", "keys", "values") or (isinstance(outer.iter, ast.Name) and "ridge" in outer.iter.id):
+        ck.violation("C14.R5", fp.qualname, "order of the regions", f"the regions are produced in the order of `{it_txt}` (the order in which ridges were met), not in the order of "
+                     f"the sensors: region k is then paired with the index of another sensor and the weights are attached to the wrong sensors", loc=fp.loc(outer))
+    else:
+        raise AnalysisError(f"{fp.qualname}: the order in which the regions are produced (`for ... in {it_txt}`) is not recognised")
     want = appended(ast.parse(FAR_POINT_REFERENCE).body, ["p2", "v1", "v2"], ref_env)
     got = appended(lp.body, names, env_before(lp))
     wp = [p for _n, pts in want for p in pts]
@@ -471,6 +491,21 @@ def _spatial(ck: Checker, prog: Program):
     from ..pathtable import seq_form, SEQ, ELT
     from .common import pkg_call_hook
     w = cls.methods["_voronoi_weights"]
+    # the cell areas are collected in a floating-point buffer: np.empty(n) / np.zeros(n) (float64 unless a dtype says otherwise); a
+    # buffer shaped and *typed* like the integer index list truncates every area
+    from .c15 import FLOATISH as _FLOATISH
+    filled = {x.value.id for x in ast.walk(w.node) if isinstance(x, ast.Subscript) and isinstance(x.ctx, ast.Store) and isinstance(x.value, ast.Name)}
+    for st_ in own_nodes(w.node):
+        if isinstance(st_, ast.Assign) and len(st_.targets) == 1 and isinstance(st_.targets[0], ast.Name) and st_.targets[0].id in filled \
+                and isinstance(st_.value, ast.Call) and call_name(st_.value) in ("empty", "zeros", "ones", "full", "empty_like", "zeros_like", "ones_like", "full_like"):
+            dt_ = kwarg(st_.value, "dtype")
+            like = call_name(st_.value).endswith("_like")
+            if (dt_ is not None and unparse(dt_) not in _FLOATISH) or (like and dt_ is None):
+                why_ = f"dtype={unparse(dt_)}" if dt_ is not None else f"the type of `{unparse(st_.value.args[0]) if st_.value.args else '?'}`"
+                ck.violation("C14.R5", w.qualname, norm_key(st_, 70), f"the areas are stored into `{norm_key(st_, 60)}` ({why_}): a non-float buffer truncates the cell areas - "
+                             f"the weights no longer sum to one and change with the unit of the coordinates", loc=w.loc(st_))
+            else:
+                ck.ok("C14.R5", w.qualname, f"{norm_key(st_, 60)}: float buffer", nontrivial=False)
     good = False
     why = "return not recognised"
     R_ = lambda n: sp.Symbol(n, real=True)   # noqa: E731
